@@ -147,6 +147,10 @@ class Impl(BaseImpl):
         self.allow_none = None
         self._doc = doc
 
+    def set_allow_none(self, value):
+        """Set allow_none. Overridden to clear the values depending on it"""
+        self.allow_none = value
+
     def get_property(self, name):
         prop = getattr(self, name)
         if prop is None:
@@ -518,7 +522,9 @@ class Interface:
 
     @allow_none.setter
     def allow_none(self, value):
-        self._impl.allow_none = value if value is None else bool(value)
+        value = value if value is None else bool(value)
+        if self._impl.allow_none is not value:
+            self._impl.set_allow_none(value)
 
     # ----------------------------------------------------------------------
     # Override base class methods
